@@ -507,11 +507,18 @@ def Db.stashPush (d : Db) : Res × Db :=
     | none => del acc n) w.working
   (.ok, { (d.setWs ⟨working1, h, none⟩) with stashes := ⟨staged1, d.headId, added⟩ :: d.stashes })
 
+/-- does the merge need a row-level three-way merge of some table (all three versions differ)?
+`handleMerge`'s conflict test on such tables is not modelled: the harness does not run those pops. -/
+def needsRowMerge (b o t : Root) : Bool :=
+  (unionKeys ltStr (keys o) (keys t)).any (fun n =>
+    decide (get o n ≠ get b n) && decide (get t n ≠ get b n) && decide (get o n ≠ get t n))
+
 def Db.stashPop (d : Db) : Res × Db :=
   match d.stashes with
   | [] => (.err .other, d)
   | s :: rest =>
     let w := d.ws
+    if needsRowMerge (d.rootOf s.head) w.working s.root then (.skip "stash pop needing a row-level merge", d) else
     match merge3 stashPopIsCherry (d.rootOf s.head) w.working s.root with
     | .error e => (errOfMerge e, d)
     | .ok m =>
